@@ -5,6 +5,10 @@ cd /repo || exit 2
 if ! git apply --3way "$D/patch.diff" 2>/tmp/try_seed.err; then echo "PATCH DOES NOT APPLY"; cat /tmp/try_seed.err; git checkout -- . ; exit 2; fi
 git reset -q 2>/dev/null
 cd /verif
+# evidence written while a seeded change is applied must not replace the evidence of the unchanged tree
+rm -rf /tmp/try_seed_evidence; cp -r /verif/evidence /tmp/try_seed_evidence
 for p in "$@"; do ./check $p; echo "exit=$?"; done
+mkdir -p /verif/seeded/.runs; for p in "$@"; do cp /verif/evidence/$p.json /verif/seeded/.runs/$(basename $D)-$p.json 2>/dev/null; done
+rm -rf /verif/evidence; mv /tmp/try_seed_evidence /verif/evidence
 git -C /repo checkout -- .
 git -C /repo status --short
